@@ -312,6 +312,7 @@ def run(ctx):
         from . import c03 as _c03c
         _c03c.consumers(ctx, "R11.1", only="IgnoreFilterer::check_event")
         _c03c.builders_stay(ctx, "R11.3")
+        _c03c.matcher_selection(ctx, "R11.1")
     except Skip:
         pass
 
